@@ -89,6 +89,30 @@ pub fn leaf_bool_char<S: Src>(s: &mut S) {
     }
 }
 
+/// Response-key merging (spec: fields with the same response key are merged): the real
+/// `create_value_object` (src/resolver_utils/container.rs) on two entries.
+/// Distinct keys: both kept, in order.
+pub fn merge_distinct<S: Src>(s: &mut S) {
+    use async_graphql::{Name, Number};
+    let x = s.i32();
+    let y = s.i32();
+    cover!(x != y, "distinct values");
+    let v = ManuallyDrop::new(async_graphql::verif_hooks::create_value_object(vec![
+        (Name::new("a"), Value::Number(Number::from(x as i64))),
+        (Name::new("b"), Value::Number(Number::from(y as i64))),
+    ]));
+    match &*v {
+        Value::Object(m) => {
+            assert!(m.len() == 2, "two distinct response keys");
+            let a = m.get_index(0);
+            let b = m.get_index(1);
+            assert!(matches!(a, Some((k, Value::Number(n))) if k.as_str() == "a" && n.as_i64() == Some(x as i64)), "first key");
+            assert!(matches!(b, Some((k, Value::Number(n))) if k.as_str() == "b" && n.as_i64() == Some(y as i64)), "second key");
+        }
+        _ => assert!(false, "an object is produced"),
+    }
+}
+
 macro_rules! leaf_ints {
     ($($n:ident => $t:ty;)*) => {
         harnesses! {
@@ -98,6 +122,7 @@ macro_rules! leaf_ints {
             #[kani::unwind(3)] c01_leaf_f32 => leaf_f32;
             #[kani::unwind(3)] c01_leaf_f32_finite => leaf_f32_finite;
             #[kani::unwind(6)] c01_leaf_bool_char => leaf_bool_char;
+            #[kani::unwind(6)] #[kani::stub(std::hash::RandomState::new, crate::stubs::rs_new)] c01_merge_distinct => merge_distinct;
         }
     };
 }
